@@ -324,7 +324,8 @@ func runC11(e *Env) Outcome {
 			feat["fault:"+fault] = true
 		}
 		feat["string-like"] = stringLike(a)
-		feat["marked-key"] = pos >= 4
+		feat["marked-key"] = pos >= 4 && pos <= 6
+		feat["second-array-under-tight-limit"] = pos == 7
 		feat["split-in-char"] = splitsInsideChar(a, steps)
 		feat["multi-chunk"] = countChunks(steps) > 1
 		feat["zero-length-chunk"] = hasZeroChunk(steps)
